@@ -617,3 +617,34 @@ def run_instance(inst, max_exec=200000, bound=None, want=("C04", "C05", "C06", "
                     )
                     break
     return stats, viols, dist
+
+
+def replay_script(inst, script, want=("C04", "C05", "C06", "C07")):
+    """re-run ONE execution (a recorded choice sequence) on the real generator with a plain replaying generator - no
+    explorer - and judge it with the per-execution oracles; returns (observation summary, [(property, code, text)])"""
+    import gbigsmiles
+
+    from .scripted import ScriptedGenerator
+
+    rng = ScriptedGenerator(script, menu=inst.menu)
+    try:
+        mg = gbigsmiles.Molecule(inst.text).generate(rng=rng)
+        o = observe(inst, mg)
+    except HarnessError:
+        raise
+    except Exception as e:  # noqa
+        o = Obs()
+        o.exc = f"{type(e).__name__}: {str(e)[:100]}"
+    o.used = None
+    targets, nd = inst.targets_from_points(rng.points)
+    wp = False
+    if None not in targets:
+        gm = R.GenModel(inst.nspec, targets)
+        try:
+            mo = gm.run()
+            wp = gm.err == 0 and not gm.capped and all("*" not in c for c in mo)
+        except R.ModelError:
+            wp = False
+    per = oracle_c04(inst, o) + oracle_c05(inst, o) + oracle_c06(inst, o, wp) + oracle_c07(inst, o, targets)
+    summary = {"text": inst.text, "script": list(script), "trace": [p.as_json() for p in rng.points], "exception": o.exc, "smiles": o.smiles, "canonical": o.canon, "targets": targets, "well_posed": wp}
+    return summary, [x for x in per if x[0] in want]
